@@ -108,6 +108,10 @@ Fixpoint dec_op (fuel : nat) (w : world) (ns : nat) (s : sx) : option hop :=
   | _ => None
   end.
 
+(* the Recover of the checked-out /repo: 1 = journal dropped after the revert loop
+   (045cec3993), 2 = before the first revert *)
+Definition C20_recover_mode : N := 1.
+
 Definition class_of (o : outc) : sx := match o with Done _ => SI 0%Z | Fail e _ => sn e end.
 
 (* observation of one operation and the next live world ([None]: the history stops) *)
@@ -142,7 +146,7 @@ Definition C20_run (c : sx) : sx :=
   | SL (SL [limit; full; maxdiff; jfile; na; ns] :: ops) =>
       match sx_N limit, sx_bool full, sx_nat maxdiff, sx_bool jfile, sx_nat na, sx_nat ns with
       | Some limit, Some full, Some maxdiff, Some jfile, Some na, Some ns =>
-          SL (run_ops (universe na ns) ns (init_world (mkJCfg limit full maxdiff false) jfile 0) ops)
+          SL (run_ops (universe na ns) ns (init_world (mkJCfg limit full maxdiff C20_recover_mode) jfile 0) ops)
       | _, _, _, _, _, _ => SErr 1
       end
   | _ => SErr 0
